@@ -5,7 +5,8 @@
                scheduling point named by the token; the following micro-steps are executed as
                long as they are not scheduling points (Model.is_yield)
        MODE a: a token is "thread + answers": micro-steps are executed until the thread needs an
-               answer that the token does not carry (single-threaded worlds)
+               answer that the token does not carry or reaches the top of the next poll turn
+               (single-threaded worlds: one token per poll turn / per service() call)
        NPRE  : number of channels (0..2) accepted and constructed before the first token
        TOK   : THREAD;KIND;ANS,ANS,...     THREAD = io | wA | wB ; KIND = name of the scheduling
                point or '-' ; ANS see [answer_of]
@@ -133,19 +134,20 @@ let labels_s ls =
 let kind_of_instr = function
   | ISelect _ -> "select" | ISelWait _ -> "selwait" | IAcqO _ -> "acqO" | ITryAcqO _ -> "tryO" | IRelO _ | KRelO _ -> "relO"
   | IAcqR _ -> "acqR" | IRelR _ | KRelR _ -> "relR" | IWaitO _ -> "wait" | IWake _ -> "wake"
-  | INotifyO _ -> "notify" | IRecv _ -> "recv" | IFlush _ -> "send" | IExpt _ -> "soerr"
+  | INotifyO _ -> "notify" | IRecv _ -> "recv" | IFlushSend _ -> "send" | IExpt _ -> "soerr"
   | ISockClose _ -> "sclose" | IAccept -> "accept" | ISetOpts _ -> "setopt" | IInitGso _ -> "gso"
   | IInitSbl _ -> "sbl" | IPull _ -> "pull" | IAddTask _ -> "addtask"
   | IPoll -> "poll" | IDisp _ -> "disp" | IDisp2 _ -> "disp2" | IHClose _ -> "hclose"
   | ICloseBufs _ -> "closebufs" | IApp _ -> "app" | IErrTask _ -> "errtask"
   | _ -> "other"
 
+let iz = function Z0 -> 0 | Zpos p -> int_of_pos p | Zneg p -> - (int_of_pos p)
 let sock_s = function SOpen -> "o" | SClosed -> "c" | SNone -> "n"
 let cv_s = function CvNone -> "-" | CvWaiting -> "w" | CvNotified -> "n"
 let chan_digest (x : chan_st) =
   Printf.sprintf "%s%s%s%s%s%s%s%s%s%s,%d,%d,%d,%s%s%s,%s,%s,%s,%d,%d"
     (sb x.created) (sb x.accepted) (sb x.in_map) (sb x.in_act) (sb x.fileno) (sock_s x.sock)
-    (sb x.conn) (sb x.wc) (sb x.cwf) (sb x.bufc) (ni x.pend) (ni x.buf) (ni x.nreq)
+    (sb x.conn) (sb x.wc) (sb x.cwf) (sb x.bufc) (iz x.pend) (ni x.buf) (ni x.nreq)
     (sb x.pexp) (sb x.sentc) (sb x.queued)
     (match x.olock with None -> "-" | Some (t, n) -> tid_s t ^ "/" ^ string_of_int (ni n))
     (match x.rlock with None -> "-" | Some t -> tid_s t)
@@ -215,6 +217,7 @@ let macro g mode s t kind answers =
     if idle then continue_ := false
     else if mode = "y" && next_is_yield s0 t then continue_ := false
     else if mode = "a" && next_wants s0 t && !answers = [] then continue_ := false
+    else if mode = "a" && (match next_instr s0 t with Some (IPoll, false) -> true | _ -> false) then continue_ := false
     else if next_wants s0 t && !answers = [] then raise (Stop "answer-missing")
     else
       match micro g s0 t answers with
@@ -290,16 +293,15 @@ let menu g faults (s : state) t : answer list =
        @ [ARecv REof]
        @ (if faults then [ARecv (RErr ECONNRESET); ARecv (RErr EINVAL)] else [])
      | IExpt _ -> [AExpt XZero] @ (if faults then [AExpt XNonzero; AExpt (XRaise EBADF)] else [])
-     | IFlush (c, _) ->
-       let x = getc s c in
-       let m = min (ni x.buf) (ni g.sndbuf) in
+     | IFlushSend (c, _, mm) ->
+       let m = ni mm in
        [ASend (SOk (nn m)); ASend (SErr EWOULDBLOCK)]
        @ (if m > 1 then [ASend (SOk (nn 1))] else [])
        @ (if faults then [ASend (SErr EPIPE); ASend (SErr EINVAL)] else [])
      | ICloseBufs c -> let x = getc s c in if ni x.buf = 0 then [ABufLen (nn 0)] else [ABufLen (nn 0); ABufLen x.buf]
      | IApp c ->
        let x = getc s c in
-       (if ni x.pend + ni x.wire < 6 then [AApp (AppWrite (nn 2))] else [])
+       (if iz x.pend + ni x.wire < 6 then [AApp (AppWrite (nn 2))] else [])
        @ [AApp (AppDone false); AApp (AppDone true)] @ (if faults then [AApp AppRaise] else [])
      | IErrTask _ -> [AKeep true; AKeep false]
      | _ -> [ANone])
